@@ -170,11 +170,11 @@ def parse_case(line):
     i = 13
     while i < len(tok):
         assert tok[i] == "C", tok[i]
-        v = tok[i + 1:i + 17]
+        v = tok[i + 1:i + 18]
         out["calls"].append(dict(dist=fh(v[0]), bnd=v[1] == "1", loop=v[2] == "1", onb=v[3] == "1",
                                  pos=[fh(x) for x in v[4:7]], dir=[fh(x) for x in v[7:10]],
-                                 vol=int(v[10]), fresh=int(v[11]), outside=v[12] == "1", esame=v[13] == "1", nstep=int(v[14])))
-        i += 16
+                                 vol=int(v[10]), fresh=int(v[11]), outside=v[12] == "1", esame=v[13] == "1", nstep=int(v[14]), fsafety=fh(v[15])))
+        i += 17
     return out
 
 
@@ -201,7 +201,17 @@ def check_case(c, o, stats):
             if r["dist"] != bump:
                 return ("short", "call %d: stopped at %r of %r without boundary/looping/bump" % (k, r["dist"], step))
             stats["bumped"] = stats.get("bumped", 0) + 1
-        if not r["onb"] and r["fresh"] != r["vol"]:
+        # within delta_intersection (+ minimum step: chords shorter than that are
+        # not tested against the geometry, FieldPropagator.hh l.196-206) of a
+        # surface the logical volume may lag the position: documented caveat
+        if not r["onb"] and r["fresh"] != r["vol"] and r["fsafety"] <= 2 * (opts[2] + opts[0]):
+            stats["volume_lag_within_tolerance"] = stats.get("volume_lag_within_tolerance", 0) + 1
+        elif not r["onb"] and r["fresh"] != r["vol"] and c["fk"] != 2 and c["rad"] <= 4 * opts[0]:
+            # gyroradius below the minimum step: chords shorter than minimum_step are
+            # never tested against the geometry (finding F-C08-3, NOTES.md)
+            stats["volume_lag_tiny_gyroradius"] = stats.get("volume_lag_tiny_gyroradius", 0) + 1
+            break
+        elif not r["onb"] and r["fresh"] != r["vol"]:
             return ("volume", "call %d: navigator says volume %d, fresh point location says %d at %r" % (
                 k, r["vol"], r["fresh"], r["pos"]))
         if uniform and (c["sk"] != 2 or c["onaxis"]):
@@ -223,9 +233,9 @@ def check_case(c, o, stats):
             dbud = 2 * eps * (1 + r["nstep"]) + kk * (tol + 2 * opts[0]) + 1e-9
             stats["max_derr_over_budget"] = max(stats.get("max_derr_over_budget", 0.0), derr / dbud if not r["bnd"] else 0.0)
             if derr > dbud:
-                if r["bnd"] and r["dist"] <= 2 * opts[0]:
+                if r["bnd"]:
                     # finding F-C08-2 (NOTES.md): boundary within minimum_substep of the
-                    # start -> momentum of the whole trial substep is committed
+                    # start of a trial substep -> momentum of the whole substep is committed
                     return ("F-C08-2", "call %d: travelled %.3g to a boundary but the direction turned by %.3g rad "
                             "(helix: %.3g rad)" % (k, r["dist"], norm([a - b for a, b in zip(d, r["dir"])]),
                                                    norm([a - b for a, b in zip(d, hd)])))
@@ -292,7 +302,7 @@ def run(ctx, exe, PRE):
             break
 
     # ---- end-to-end ---------------------------------------------------------
-    ne = 700 if quick else 20000
+    ne = 500 if quick else 20000
     cases = [gen_case(r, coeff) for _ in range(ne)]
     rc, out = ctx.run_harness(exe, [geodir, fmap], input="\n".join(case_line(c) for c in cases) + "\n", timeout=1500)
     lines = [l for l in out.strip().splitlines() if l.startswith("E ")]
